@@ -277,7 +277,8 @@ def run_config_sym(name, fn, kw, tier, seed, opts):
     from . import symnp
     h = H('sym', tier, seed)
     ex = Explorer(seed=seed, maxpaths=opts.get('maxpaths', 256 if tier == 'quick' else 4096),
-                  scale=opts.get('scale', 1.0), feas_ms=opts.get('feas_ms', (3000, 20000)))
+                  scale=opts.get('scale', 1.0), feas_ms=opts.get('feas_ms', (3000, 20000)),
+                  follow_nominal=opts.get('follow_nominal', False))
     h.ex = ex
     prof = _Profiler()
     t0 = time.time()
